@@ -268,6 +268,18 @@ def base_of(obs, rows):
     return [x * k for x in v] if isinstance(v, list) else v * k
 
 
+def base_err_of(obs, rows):
+    """absolute error in base dimensions: error x factor of the observed units"""
+    if obs["e"] is None:
+        return None
+    f = {r[0]: r[3] for r in rows}
+    k = 1.0
+    for u, n, d in obs["u"]:
+        k *= f[u] ** (n / d)
+    e = obs["e"]
+    return [x * k for x in e] if isinstance(e, list) else e * k
+
+
 def close(a, b, scale=None, tol=TOL):
     """floats / lists with relative tolerance (or absolute tol*scale when a scale is given)"""
     if a is None or b is None:
@@ -348,12 +360,30 @@ def float_to_frac(x):
 def run_impl(case):
     """Builds fresh operands, snapshots their state, applies the operation on the real class."""
     op = case["op"]
+    import numpy as np
+    if op == "new":
+        # the constructor itself: the model gets the arguments, the real object is the result
+        req = {"k": "qty", "op": "new",
+               "l": {"v": fl(np.array(case["lv"], dtype=float)) if isinstance(case["lv"], list) else float(case["lv"]),
+                     "e": case.get("le"), "u": [[uid(*f), e[0], e[1]] for f, e in case["lu"]]}}
+        req["env"] = env_rows([u[0] for u in req["l"]["u"]])
+        try:
+            q, _ = build("dict", case["lv"], case.get("le"), case["lu"])
+            imp = observe(q)
+            if not (finite(imp["v"]) and finite(imp["e"])):
+                imp = "nonfinite"
+        except (ZeroDivisionError, OverflowError, FloatingPointError):
+            imp = "nonfinite"
+        except Exception:
+            imp = "err"
+        return req, imp
     l, how_l = build(case.get("mode", "dict"), case["lv"], case.get("le"), case.get("lu"))
     r = None
-    if "rv" in case:
+    if case.get("same"):
+        r = l                      # the SAME object on both sides (a op a)
+    elif "rv" in case:
         r, _ = build(case.get("mode", "dict"), case["rv"], case.get("re"), case.get("ru"))
     req = {"k": "qty", "op": op.split("_")[0]}
-    import numpy as np
 
     def operand(q, v, us):
         if us is None and case.get("plain"):
@@ -361,7 +391,9 @@ def run_impl(case):
                 (np.array(v, dtype=float) if isinstance(v, list) else v)
         return state(q), q
     req["l"], lo = operand(l, case["lv"], case.get("lu"))
-    if r is not None:
+    if case.get("same"):
+        req["r"], ro = req["l"], lo
+    elif r is not None:
         req["r"], ro = operand(r, case["rv"], case.get("ru"))
     ids = [u[0] for u in req["l"].get("u", [])] + [u[0] for u in req.get("r", {}).get("u", [])]
     if op == "to":
@@ -487,8 +519,10 @@ def gen_case(rng):
             c = {"op": op, "lv": x, "lu": None, "rv": v, "ru": us, "plain": True}
         else:
             c = {"op": op, "lv": v, "lu": us, "rv": x, "ru": None, "plain": True}
-    elif r < 0.85:
+    elif r < 0.83:
         c = {"op": "neg", "lv": gen_value(rng), "lu": gen_units(rng)}
+    elif r < 0.86:
+        c = gen_ctor(rng)
     else:                                          # powers
         kind = rng.choice(["pow_int", "pow_pair", "pow_float", "pow_float"])
         d = 1 if kind == "pow_int" else rng.choice([1, 2, 2, 3, 4, 5, 6])
@@ -502,7 +536,28 @@ def gen_case(rng):
     c["le"] = gen_err(rng, c["lv"]) if c.get("lu") is not None else None
     if "rv" in c:
         c["re"] = gen_err(rng, c["rv"]) if c.get("ru") is not None else None
+    if "rv" in c and not c.get("plain") and c.get("lu") is not None and rng.random() < 0.08:
+        # a op a : the same object on both sides
+        if c["op"] == "div" and (c["lv"] == 0 or (isinstance(c["lv"], list) and 0 in c["lv"])):
+            c["lv"] = 2.0
+            c["le"] = gen_err(rng, c["lv"]) if c["le"] is not None else None
+        c.update({"same": True, "rv": c["lv"], "ru": c["lu"], "re": c["le"]})
     return c
+
+
+def gen_ctor(rng):
+    """Quantity(value, units): mostly unit expressions whose dimensions cancel with a factor != 1"""
+    lu = gen_units(rng, 2)
+    if rng.random() < 0.8:
+        inv = [(f, (-e[0], e[1])) for f, e in (variant(rng, lu) or lu)]
+        seen = {uid(*f) for f, _ in lu}
+        lu = lu + [(f, e) for f, e in inv if uid(*f) not in seen]
+        if rng.random() < 0.3:
+            nodim = unit_pool()[1][json.dumps([[0, 1]] * 8)]
+            s, pr = rng.choice(nodim)
+            if uid("", s) not in seen:
+                lu.append((("", s), (1, 1)))
+    return {"op": "new", "lv": gen_value(rng), "lu": lu}
 
 
 def U(*fs):
@@ -535,6 +590,13 @@ CORPUS = [
     {"op": "add", "lv": 3.0, "lu": None, "rv": 2.0, "ru": U(("", "%", 1, 1)), "plain": True},
     {"op": "sub", "lv": 2.0, "lu": U(("", "ppth", 1, 1)), "rv": 3.0, "ru": None, "plain": True},
     {"op": "neg", "lv": [1.0, -2.0], "lu": U(("", "m", 1, 1)), "le": 0.1},
+    # the same object on both sides
+    {"op": "mul", "lv": 12.0, "lu": U(("c", "m", 1, 1)), "le": 0.2, "same": True, "rv": 12.0, "ru": U(("c", "m", 1, 1)), "re": 0.2},
+    {"op": "div", "lv": 3.0, "lu": U(("k", "m", 1, 1)), "same": True, "rv": 3.0, "ru": U(("k", "m", 1, 1))},
+    {"op": "sub", "lv": [1.0, 2.0], "lu": U(("", "s", 1, 1)), "le": 0.1, "same": True, "rv": [1.0, 2.0], "ru": U(("", "s", 1, 1)), "re": 0.1},
+    # constructor with units whose dimensions cancel
+    {"op": "new", "lv": 4.0, "lu": U(("c", "m", 1, 1), ("", "m", -1, 1)), "le": 0.1},
+    {"op": "new", "lv": 3.0, "lu": U(("k", "Hz", 1, 1), ("", "s", 1, 1), ("", "%", 1, 1))},
 ]
 
 
@@ -563,6 +625,8 @@ def judge(ctx, case, req, imp, ans, prop="C06"):
         ctx.count("with-error")
     if isinstance(case["lv"], list) or isinstance(case.get("rv"), list):
         ctx.count("array")
+    if case.get("same"):
+        ctx.count("same-object")
     bad = compare_spec(imp, spec, req["env"], scale)
     if bad:
         ctx.violation("%s:%s" % (op, bad[0]),
@@ -604,7 +668,9 @@ def describe(case):
             return repr(v)
         return "%r%s '%s'" % (v, "" if e is None else "±%g" % e, text_of(u))
     s = one(case["lv"], case.get("lu"), case.get("le"))
-    if "rv" in case:
+    if case.get("same"):
+        s += " , the same object"
+    elif "rv" in case:
         s += " , " + one(case["rv"], case.get("ru"), case.get("re"))
     if "p" in case:
         s += " ** %s/%s as %s" % (case["p"][0], case["p"][1], case["op"][4:])
@@ -615,6 +681,8 @@ def nontrivial(case):
     lu, ru = case.get("lu"), case.get("ru")
     if case["op"].startswith("pow"):
         return case["p"][1] not in (0, 1) or bool(lu)
+    if case.get("same") or case["op"] == "new":
+        return bool(lu)
     if lu and ru:
         return [f for f, _ in lu] != [f for f, _ in ru]
     return bool(lu or ru)
